@@ -258,6 +258,42 @@ def der_tree_mutations(data):
                 yield "tree:bitstring_unused_%d" % u, edit(lambda l, i, u=u: l.__setitem__(i, [0x03, None, bytes([u]) + (wrap and der_serialise(kids) or body[1:]), b""]))
 
 
+def der_self_nesting(data, depths=(1, 2, 40, 1100, 3000)):
+    """The whole structure embedded in itself: for every node that can carry nested DER (constructed types, OCTET STRING,
+    BIT STRING) its content is replaced by the complete structure of the previous level, `depth` times, enclosing lengths
+    re-encoded each time - every level is a well-formed instance of the outer syntax.  A decoder that unwraps by recursion
+    must refuse (or survive) this, not run out of stack.  Yields (kind, bytes)."""
+    import copy
+    tree = der_parse_tree(data)
+    if not tree or der_serialise(tree) != bytes(data):
+        return
+    paths = []
+
+    def walk(nodes, path):
+        for i, nd in enumerate(nodes):
+            if nd[0] & 0x20 or nd[0] in (0x03, 0x04):
+                paths.append(path + (i,))
+            if nd[1] is not None:
+                walk(nd[1], path + (i,))
+    walk(tree, ())
+    for path in paths:
+        if len(path) == 1:
+            continue            # the outermost node: nesting there is just a longer prefix, covered by the inner ones
+        prev = bytes(data)
+        level = 0
+        for depth in depths:
+            while level < depth:
+                t = copy.deepcopy(tree)
+                lst = t
+                for i in path[:-1]:
+                    lst = lst[i][1]
+                tag = lst[path[-1]][0]
+                lst[path[-1]] = [tag, None, (b"\x00" if tag == 0x03 else b"") + prev, b""]
+                prev = der_serialise(t)
+                level += 1
+            yield "nest:%02x@%s:x%d" % (tag, "".join(str(i) for i in path), depth), prev
+
+
 # ------------------------------------------------------------------ bytes-like containers
 
 
@@ -284,6 +320,13 @@ def containers(b, wide=True, exotic=True):
                 out.append(("array_" + code, a))
                 out.append(("memoryview_array_" + code, memoryview(a)))
     return out
+
+
+def boolish(flag, i):
+    """The same truth value as `flag`, every fourth time as the non-bool a caller may well pass for a boolean option (1 / 0 / None)."""
+    if i % 4:
+        return flag
+    return (1 if flag else (0, None)[(i // 4) % 2])
 
 
 def pick_container(b, i, wide=True, exotic=True):
